@@ -222,6 +222,10 @@ def run(ck):
     ]
     for r in core.pmap("vf.props.c07:work", payloads, timeout=3400):
         ck.merge(r)
+    if ck.tier == "thorough":
+        from vf.props import infer
+
+        infer.suite_as_workload(ck, "C07")
     for name in SINGLES[:-1]:
         ck.need(f"{name}:trigger_present", 100, "rewriter's trigger present in too few inputs")
         ck.need(f"{name}:trigger_absent", 100)
